@@ -228,7 +228,9 @@ func (s *JSONDB) FindByRequestID(dagFile string, requestID string) (*model.Statu
 		return nil, err
 	}
 	sort.Sort(sort.Reverse(sort.StringSlice(matches)))
+	verifPoint("listed", dagFile)
 	for _, f := range matches {
+		verifPoint("visit", f)
 		status, err := ParseFile(f)
 		if err != nil {
 			log.Printf("parsing failed %s : %s", f, err)
